@@ -4,6 +4,7 @@ import (
 	"bufio"
 	"fmt"
 	"net"
+	"os"
 	"sort"
 	"strconv"
 	"strings"
@@ -51,15 +52,25 @@ func b01(b bool) string {
 
 var portCounter, srvPortCounter atomic.Int32
 
-// nextPorts hands out an even client port number (20000..59998, cyclic: the harness makes far more
-// SETUPs than there are ports; a pair is only reused long after its session ended).
-func nextPorts() int {
-	return 20000 + int(portCounter.Add(1)%20000)*2
+// Every worker is a process of its own: each gets its own slice of the port space (and starts at a
+// place that depends on its pid, because several checks may run on the machine at the same time).
+var portSlice int
+
+func setPortSlice(worker int) {
+	portSlice = worker % 8
+	portCounter.Store(int32(os.Getpid() * 131 % 2000))
+	srvPortCounter.Store(int32(os.Getpid() * 37 % 600))
 }
 
-// nextServerPorts: even port numbers for the servers' own UDP listeners (10000..19998).
+// nextPorts hands out an even client port number (20000..51998; 4000 per worker, cyclic: a pair is
+// only bound by the timing scenarios and only reused long after its session ended).
+func nextPorts() int {
+	return 20000 + portSlice*4000 + int(portCounter.Add(1)%2000)*2
+}
+
+// nextServerPorts: even port numbers for the servers' own UDP listeners (10000..19598; 1200 per worker).
 func nextServerPorts() int {
-	return 10000 + int(srvPortCounter.Add(1)%5000)*2
+	return 10000 + portSlice*1200 + int(srvPortCounter.Add(1)%600)*2
 }
 
 // instance is a running server with its scripted handler and the client side of the test.
@@ -82,6 +93,7 @@ type instance struct {
 
 type timeoutCfg struct {
 	idle, read, check time.Duration
+	now               func() time.Time // injected clock (nil: the real one)
 }
 
 type client struct {
@@ -98,7 +110,7 @@ func newInstance(cfg Cfg, tc *timeoutCfg) (*instance, error) {
 	in := &instance{cfg: cfg, core: newCore(), clients: map[int]*client{}, timeoutCfg: tc}
 	in.id = int(instCounter.Add(1))
 	var lastErr error
-	for attempt := 0; attempt < 50; attempt++ {
+	for attempt := 0; attempt < 300; attempt++ {
 		s := &gortsplib.Server{
 			Handler:     newHandler(cfg.Mask, in.core),
 			RTSPAddress: "127.0.0.1:0",
@@ -110,6 +122,9 @@ func newInstance(cfg Cfg, tc *timeoutCfg) (*instance, error) {
 			s.IdleTimeout = tc.idle
 			s.ReadTimeout = tc.read
 			s.VerifSetCheckStreamPeriod(tc.check)
+			if tc.now != nil {
+				s.VerifSetTimeNow(tc.now)
+			}
 		}
 		if cfg.UDP {
 			p := nextServerPorts()
@@ -662,6 +677,16 @@ func (in *instance) doReq(r Req) (ReqResult, error) {
 	cl, ok := in.clients[r.Conn]
 	if !ok || cl.dead || !in.serverOpen(r.Conn) {
 		out.NoConn = true
+		if ok {
+			in.core.mu.Lock()
+			out.CloseErr = fmt.Sprintf("noconn: client side dead=%v", cl.dead)
+			if cl.rec != nil {
+				out.CloseErr += fmt.Sprintf(", server side closed=%v (%s)", cl.rec.closed, cl.rec.closeErr)
+			} else {
+				out.CloseErr += ", OnConnOpen never seen"
+			}
+			in.core.mu.Unlock()
+		}
 		return out, nil
 	}
 	req, err := in.buildRequest(r)
